@@ -215,13 +215,38 @@ class Writer:
                     b = self.rng.randint(a + 2, d["n"])
                     out.append((["slice", ["vec", d["name"]], a, b, None], nm[a:b]))
                     out.append((["slice", ["vec", d["name"]], None, None, -1], nm[::-1]))
+                    # stepped views with the start / stop of the contiguous one: different element sets under ONE generated name
+                    st = self.rng.choice([2, 3])
+                    out.append((["slice", ["vec", d["name"]], a, b, st], nm[a:b:st]))
+                    out.append((["slice", ["vec", d["name"]], None, None, -2], nm[::-2]))
             elif d["k"] == "mat":
                 mn = self.D.mat_names(d["name"])
                 for i in range(d["r"]):
                     out.append((["row", ["mat", d["name"]], i], list(mn[i])))
                 for j in range(d["c"]):
                     out.append((["col", ["mat", d["name"]], j], [r[j] for r in mn]))
+                if d["c"] >= 3:
+                    i = self.rng.randrange(d["r"])
+                    out.append((["rows", ["mat", d["name"]], i, 1, None, None], list(mn[i][1:])))
+                    out.append((["rows", ["mat", d["name"]], i, None, None, -1], list(mn[i][::-1])))
         return out
+
+    def pure_piece(self, vecnode, names, coefs):
+        """sum_i coefs[names[i]] * names[i] written as ONE vector node over the view and nothing else (the expression root is the
+        vector node itself).  Returns (node, const)."""
+        cs = [coefs.get(nm, 0.0) for nm in names]
+        f = self.rng.choice(["arr@v", "v@arr", "list@", "v.dot(list)", "consts.dot(v)"] + (["sum"] if set(cs) == {1.0} else []))
+        if f == "arr@v":
+            return ["matmul", ["arr", cs], vecnode], 0.0
+        if f == "v@arr":
+            return ["matmul", vecnode, ["arr", cs]], 0.0
+        if f == "list@":
+            return ["matmul", vecnode, ["list", cs]], 0.0
+        if f == "v.dot(list)":
+            return ["dot", vecnode, ["list", cs]], 0.0
+        if f == "sum":
+            return ["sum", vecnode], 0.0
+        return ["dot", ["velems", [["const", float(c), "float"] for c in cs]], vecnode], 0.0
 
     # -- whole affine function ---------------------------------------------
     def affine(self, coefs, const, mention_all=False):
@@ -323,7 +348,35 @@ def draw_lp(rng, layout=None, kind="any", risky=True, max_rows=5):
         slack = abs(q(rng, 0, 2)) if rng.random() < 0.7 else 0.0
         return at + slack if s == "<=" else (at - slack if s == ">=" else at)
 
-    m = rng.randint(0 if kind != "infeasible" else 1, max_rows)
+    # "pure view" models: the objective and every constraint are each ONE vector node over a view of one container (views that share a
+    # generated name but not their elements, full views in reversed order, partial rows): nothing else mentions the variables
+    pure = bool(W.views()) and rng.random() < 0.22
+    if pure:
+        container = rng.choice([d for d in decls if d["k"] in ("vec", "mat")])
+        def base_name(vn):
+            return vn[1] if vn[0] in ("vec", "mat") else base_name(vn[1])
+
+        fam = [(vn, nms) for vn, nms in W.views() + W.views() if base_name(vn) == container["name"]]
+        fam = [(vn, nms) for vn, nms in fam if nms]
+        ov = rng.choice(fam)
+        c = {nm: 0.0 for nm in names}
+        for nm in ov[1]:
+            c[nm] = q(rng, -3, 3, nz=True)
+        if len(ov[1]) > 1 and rng.random() < 0.5:
+            # strictly monotone weights: never a palindrome
+            for k_, nm in enumerate(ov[1]):
+                c[nm] = 0.5 + 0.75 * k_
+        c0 = 0.0
+        pure_obj, _k = W.pure_piece(ov[0], ov[1], c)
+        for _ in range(rng.randint(1, 4)):
+            rv = rng.choice(fam)
+            coef = {nm: q(rng, -3, 3, nz=True) for nm in rv[1]}
+            s_ = rng.choice(["<=", ">=", "<=", ">=", "=="])
+            rhs = fix_rhs(coef, s_, q(rng, -4, 6))
+            lhs, _k = W.pure_piece(rv[0], rv[1], coef)
+            cons.append(["rel", s_, lhs, ["raw", float(rhs), "float"], "direct"])
+            rows.append({"coef": coef, "sense": s_, "rhs": rhs})
+    m = rng.randint(0 if kind != "infeasible" else 1, max_rows) if not pure else 0
     for _ in range(m):
         r = rng.random()
         if not W.views():
@@ -390,7 +443,7 @@ def draw_lp(rng, layout=None, kind="any", risky=True, max_rows=5):
         for s, rv in (("<=", bv), (">=", bv + gap)):
             cons.append(["rel", s, W.affine(coef, 0.0, mention_all=True), ["raw", rv, "float"], "direct"])
             rows.append({"coef": dict(coef), "sense": s, "rhs": rv})
-    obj = W.affine(c, c0, mention_all=(rng.random() < 0.3))
+    obj = pure_obj if pure else W.affine(c, c0, mention_all=(rng.random() < 0.3))
     # bounds assigned on the Variable objects after construction (v.lb = ..., v.ub = ...): fixing a binary decision at 0 / 1,
     # tightening a box.  Ground truth = the edited bounds.
     bound_edits = {}
@@ -413,7 +466,7 @@ def draw_lp(rng, layout=None, kind="any", risky=True, max_rows=5):
     return {
         "bound_edits": bound_edits,
         "decls": decls,
-        "layout": layout,
+        "layout": layout + ("/pure-views" if pure else ""),
         "kind": kind,
         "c": c,
         "c0": c0,
